@@ -158,11 +158,11 @@ PROPS = {
         "level_text": "Props/C06 gives the complete output of the cursor resolver for every list of canonical blocks: on_chain_new_cursor / on_chain_undo_cursor — blocks below the cursor block are held back; when the cursor block arrives the canonical blocks above the cursor LIB held so far are announced Irreversible (sendBetween_spec: exactly those with a number in (LIB, cursor block], in file order, each carrying itself as cursor head and LIB) and every later block is delivered once, in order, new-and-irreversible; fork_cursor — for a cursor on a fork: the undos newest first naming the junction, the finality replay up to the junction, the new-and-irreversible blocks above it, then every later block; resolve_sound — undone blocks come from readable one-block files at or after the cursor LIB number and the junction is a canonical block seen; unresolvable — if a needed forked block is missing or unreadable nothing at all was delivered and the run ends with the resolution error. That the undone blocks are exactly the consumer's pending forked blocks relies on the forked-blocks store being complete for the history: decided by the Lean consumer-at-cursor monitor on real stores (resolver suite).", "level_note": LEVEL_NOTE_COMMON, "explanation": 'theorems for all canonical lists and stores; the tie to cursor_resolver.go and to real dstore stores/dbin files is differential (2000/25000 resumptions from real cursors)',
     },
     "C10": {
-        "suites": [("filesrc", 500, 6000)], "props": ["C10"], "level": "proof",
+        "suites": [("filesrc", 500, 6000)], "props": ["C10"], "level": "proof", "facts": True,
         "nontrivial": lambda suite, case, impl: sum(1 for l in case["lines"] if l.startswith("impl blk")) >= 3,
         "rule": "cases = a linear chain of 4-29 blocks (skipped numbers 1 in 3) laid out in bundles of size 1/2/3/5/10 (real DBinBlockWriter, empty bundle files for ranges without blocks), start anywhere (mid-file, on a missing number, on the first base), stop block anywhere or none (then the run ends waiting for the next file), 1-8 preprocessor threads with pseudo-random 0-450 microsecond delays per preprocess call, optional legacy leading block below the bundle base, a broken parent link, a missing bundle file, a handler failure at call 0-5; distinct = sha1 of header+body; non-trivial = at least 3 blocks delivered",
         "technique": "Lean 4 sequential model of FileSource (FileSourceSeq) + delivery monitor (Lean) + differential correspondence under randomised preprocess delays and thread counts",
-        "level_text": "Props/C10 (sequential content, all stores, start/stop blocks, bundle sizes, handler budgets): run_spec — the delivered sequence is a prefix of the stored eligible blocks (first block at or above the start block onwards, bundles in ascending order) in exactly stored order, each once, parent-linked; it is the whole of it when the run ends with stop-block-reached; on a non-sequential error it stopped exactly before the offending block (the block after the delivered prefix, whose parent is not the last delivered id); handler_error_stops_file. 'For every relative timing of the parallel preprocessors and file readers' and 'paired with the preprocessor result computed for that same block' are not theorems: the real pipeline is run with 1-8 preprocessor threads and pseudo-random delays and must deliver exactly the model's sequence with matching preprocess tags.", "level_note": LEVEL_NOTE_COMMON, "explanation": 'theorems about the sequential model; timing independence by differential runs under randomised delays/thread counts (500/6000 cases)',
+        "level_text": "Props/C10 (sequential content, all stores, start/stop blocks, bundle sizes, handler budgets): run_spec — the delivered sequence is a prefix of the stored eligible blocks (first block at or above the start block onwards, bundles in ascending order) in exactly stored order, each once, parent-linked; it is the whole of it when the run ends with stop-block-reached; on a non-sequential error it stopped exactly before the offending block (the block after the delivered prefix, whose parent is not the last delivered id); handler_error_stops_file. 'For every relative timing of the parallel preprocessors' and 'paired with the preprocessor result computed for that same block': pipeline_order_any_schedule — in the interleaving model of streamReader's skeleton (one result channel per block queued in read order on a bounded channel, workers finishing in any order, a forwarder waiting for the oldest queued result) the consumer receives, for every schedule, a prefix of the blocks in read order each with its own preprocess result, and all of them when nothing is left; pipeline_no_deadlock; pipeline_skeleton_in_source ties the skeleton to /repo (go/ast facts resultChanQueuedInReadOrder, forwarderSequential, regenerated every run). The per-file ordering (launchReader / fileStream) is not modelled as an interleaving system; the real pipeline is also run with 1-8 preprocessor threads and pseudo-random delays and must deliver exactly the model's sequence with matching preprocess tags.", "level_note": LEVEL_NOTE_COMMON, "explanation": 'theorems about the sequential model; timing independence by differential runs under randomised delays/thread counts (500/6000 cases)',
     },
     "C07": {
         "suites": [("stream", 100, 1500)], "props": ["C07"], "level": "other", "suite_timeout": 2400,
